@@ -166,8 +166,8 @@ def build_gen(cls, p):
     hw = py4hw.HWSystem()
     a, b, q = hw.wire('a', p['wa']), hw.wire('b', p['wb']), hw.wire('q', p['wq'])
     dut = cls(hw, 'dut', a, b, q, p['k'])
-    if p.get('family') == 'sharedparam':
-        # a second instance of the same (module-name sharing) class with another parameter value
+    if p.get('family') in ('sharedparam', 'twoinst'):
+        # a second instance of the same class with another parameter value / constructor argument
         q2 = hw.wire('q2', p['wq'])
         cls(hw, 'dut2', a, b, q2, p['k'] + 1)
         return hw, [('a', a), ('b', b)], [('q', q), ('q2', q2)], dut
